@@ -46,6 +46,26 @@ func roundTrip(tp reflect.Type, pv reflect.Value) (enc []byte, problem string) {
 	if re := x.Encode(); !bytes.Equal(re, enc) {
 		return enc, fmt.Sprintf("Encode(DecodeStrict(Encode(v))) != Encode(v): %x", re)
 	}
+	// a decoded value owns its bytes (see owned_test.go): decode from a scratch copy, overwrite the scratch, encode again
+	for _, strict := range []bool{false, true} {
+		scratch := append([]byte{}, enc...)
+		y := newOf(tp)
+		var err error
+		if strict {
+			err = y.DecodeStrict(scratch)
+		} else {
+			err = y.Decode(scratch)
+		}
+		if err != nil {
+			return enc, fmt.Sprintf("decoding a copy of the encoding failed: %v", err)
+		}
+		for i := range scratch {
+			scratch[i] ^= 0xff
+		}
+		if re := y.Encode(); !bytes.Equal(re, enc) {
+			return enc, fmt.Sprintf("the decoded value changed when the buffer it was decoded from (strict=%v) was overwritten: re-encodes to %x", strict, re)
+		}
+	}
 	return enc, ""
 }
 
